@@ -62,9 +62,9 @@ def run_diff(prop, dp, tier="quick"):
 
 def cmd_run(a):
     prop, name = a[:2]; tier = a[a.index("--tier") + 1] if "--tier" in a else "quick"
-    dp = name if os.path.exists(name) else os.path.join(V, "mutants", prop, name + ".diff")
+    dp = os.path.abspath(name) if os.path.exists(name) else os.path.join(V, "mutants", prop, name + ".diff")
     rc, vio, wall, tail = run_diff(prop, dp, tier)
-    print("%s %s: %s in %.0fs" % (prop, os.path.basename(dp), "CAUGHT" if rc == 1 and vio else "MISSED rc=%s" % rc, wall))
+    print("%s %s: %s in %.0fs" % (prop, os.path.basename(dp), "CAUGHT" if rc == 1 and vio else ("PATCH-DOES-NOT-APPLY" if rc is None else "MISSED rc=%s" % rc), wall))
     for v in vio[:4]: print("   ", v)
     if rc != 1: print(tail)
     return 0 if rc == 1 else 1
